@@ -8,7 +8,7 @@ from props.common import *
 from props import hashcommon as HC
 
 PREFIX = ('hashseq',)
-LEAN_PROOFS = []
+LEAN_PROOFS = ['Proofs.C14']
 GEN_ITEMS = ['Hashes']
 TRUSTED = []
 ASSUMPTIONS = ['padmethod.bitcnt after the FINAL piece is 0 when the padding spilled into an extra block (C09: zero for a pad-only block): compared code<->model only']
